@@ -173,6 +173,23 @@ def handleC03 (cmd : String) (args : List Sexp) : Option Sexp :=
               Sexp.list ((coords w.leafShape).map (fun c => match w.written c with
                 | none => ofInt (-1)
                 | some vc => ofNat (ravel sh vc)))])
+  -- td[idx] = TensorDict({nested_j: TensorDict(entries, vb ++ cbx)}, vb): (c03.setcolln bs (e ..) leaves-of-nested idx (vb ..) (cbx ..) entries)
+  | "c03.setcolln", [bs, ex, .list (.atom "leaves" :: ls), idx, vb, cbx, .list es] => do
+      let nd : Td.Nested := { extra := (← shape? ex), leaves := (← ls.mapM shape?) }
+      let td : Td.TD := { bs := (← shape? bs), names := none, leaves := [], nested := [nd] }
+      let idx ← pyIndex? idx; let vb ← shape? vb; let cbx ← shape? cbx
+      let entries ← es.mapM (fun (e : Sexp) => match e with
+        | Sexp.list [Sexp.atom "new", sh] => (shape? sh).map (fun s => ({ target := none, shape := s } : Td.VEntry))
+        | Sexp.list [t, sh] => do pure ({ target := some (← asNat? t), shape := (← shape? sh) } : Td.VEntry)
+        | _ => none)
+      pure (match Td.setitemCollNested td idx vb 0 cbx entries with
+        | .error e => errToSexp e
+        | .ok ws => tagged "ok" ((entries.zip ws).map (fun (e, w) =>
+            Sexp.list [match w.target with | some j => ofNat j | none => Sexp.atom "new",
+              tagged "shape" (w.leafShape.map ofNat),
+              Sexp.list ((coords w.leafShape).map (fun c => match w.written c with
+                | none => ofInt (-1)
+                | some vc => ofNat (ravel e.shape vc)))])))
   | "c03.torchset", [dims, idx, v] => do
       let dims ← shape? dims; let idx ← pyIndex? idx; let v ← shape? v
       pure (match TorchSpec.setIndex dims idx.items v with
